@@ -259,6 +259,9 @@ class ParentTranslator:
                 return '.'.join(attrs)
             else:
                 return 'None'
+        elif type(value) is float and (value != value
+                                       or value in (float("inf"), -float("inf"))):
+            return 'float("%s")' % value    # inf, -inf and nan have no literal
         elif any(type(value) is t for t in literal_types):
             return pprint.pformat(value)
         elif (isinstance(value, types.ModuleType)
